@@ -1141,7 +1141,6 @@ func canReachVia(fn *ssa.Function, start, target ssa.Instruction, via map[edge]b
 
 func loopBlocks(hd *ssa.BasicBlock) map[*ssa.BasicBlock]bool { return naturalLoop(hd) }
 
-
 // onlyRegisteredThrough: an address of a callback list (the field address itself, a merge of such addresses, or the
 // result of a function returning one) is used — outside the lifecycle functions — only to append to the list: it is
 // stored through, or loaded from with the loaded list feeding nothing but append.
@@ -1193,7 +1192,6 @@ func onlyRegisteredThrough(p *Program, addr ssa.Value, scope map[*ssa.Function]b
 	return true
 }
 
-
 // callsToFunc: the call instructions in g whose static callee is f.
 func callsToFunc(g, f *ssa.Function) []ssa.Instruction {
 	var out []ssa.Instruction
@@ -1204,7 +1202,6 @@ func callsToFunc(g, f *ssa.Function) []ssa.Instruction {
 	})
 	return out
 }
-
 
 // startServersScope: startServers, its closures and the same-package helpers it calls.
 func startServersScope(p *Program) map[*ssa.Function]bool {
